@@ -171,7 +171,7 @@ def nonfixed_inherited(model):
 
 FIXED = {"Beta": "beta", "a-b": "ab", "k.x": "kx", "Delta9": "delta9",
          "a_b": "ab2", "host-b": "hostb", "h1.example": "h1example",
-         "10.0.0.1": "ten"}
+         "10.0.0.1": "ten", "x--y": "xy"}
 
 
 def neutralise_names(model):
@@ -502,6 +502,20 @@ def run_components(ctx, i, space):
         ("<import package='%s' file='component.xml'/>" % p)
         if ef and (j + ef) % 2 == 0 else "<import package='%s'/>" % p
         for j, p in enumerate(imports))
+    # two component files of one package whose names differ in letter case
+    # only: two components (file names are case-sensitive here)
+    twins = []
+    if rng.random() < 0.3:
+        pd = space.new_name("d")
+        tl = packages.gen_component_types(rng, model, "pdl", 1)
+        tu = packages.gen_component_types(rng, model, "pdu", 1)
+        space.write(pd, {"extra.xml": packages.component_xml(tl, base),
+                         "Extra.xml": packages.component_xml(tu, base)})
+        order = rng.choice([("extra.xml", "Extra.xml"),
+                            ("Extra.xml", "extra.xml")])
+        head += "".join("<import package='%s' file='%s'/>" % (pd, f)
+                        for f in order)
+        twins = (tl + tu) if order[0] == "extra.xml" else (tu + tl)
     x1 = family.render_xml(m, abstract_import=(base, "abstract.xml"),
                            head_xml=head)
     # expansion: everything defined in place once, in definition order
@@ -514,6 +528,7 @@ def run_components(ctx, i, space):
     for p, ts in ((pa, ta), (pb, tb), (pc, tc)):
         if p in reach:
             extra.extend(copy.deepcopy(ts))
+    extra.extend(copy.deepcopy(twins))
     abstract_defs = [t for t in em["types"] if t["kind"] == "abstract"]
     rest = [t for t in em["types"] if t["kind"] != "abstract"]
     em["types"] = abstract_defs + extra + rest
@@ -521,7 +536,8 @@ def run_components(ctx, i, space):
     s1, e1 = load_schema_text(x1)
     s2, e2 = load_schema_text(x2)
     compare_pair(ctx, "components", "imports=%d,reach=%d%s" % (
-        len(imports), len(reach), ",cyclic" if cyclic else ""),
+        len(imports), len(reach), (",cyclic" if cyclic else "") +
+        (",case-twins" if twins else "")),
                  s1, e1, s2, e2, family.Resolved(em),
                  {"family": "components", "composed": x1, "expanded": x2,
                   "packages": {pa: packages.component_xml(ta, base),
